@@ -52,7 +52,7 @@ func normalizeTaxCombo(combo *tax.Combo) {
 
 func validateTaxCombo(val any) error {
 	c, ok := val.(*tax.Combo)
-	if !ok {
+	if !ok || c == nil {
 		return nil
 	}
 	switch c.Category {
